@@ -106,6 +106,25 @@ CLAIMED["C14"] = dict(cat="model_checking", ref="DESIGN.md 6 C14",
    note="Trusted: the repository's fake iptables. Kernel iptables behaviour is not exercised.",
    tech="TLA+ spec evaluated exhaustively by TLC (laws + expected tables) + history replay into the real handler over a fake NAT table and real sockets")
 
+POL_NOTE = ("Trusted: the strict kernel model harness/polenv/kernel.go (atomic iptables-restore with --noflush semantics, reference checks at the line, refusal to delete what is in use, "
+            "hash:net without /0, most-specific-prefix nomatch), the harness's own re-implementation of the GLX-* naming, listers over driver-owned indexers, TLC. "
+            "Handlers and synchronisations never overlap in time; the manager synchronises when it starts. Universe: 2 namespaces, 5 pods, 3 policies, 9 addresses, 6 blocks; "
+            "not generated: named ports, SCTP, protocol-only ports, matchExpressions, host-network pods, one network both allowed and excepted in one rule.")
+CLAIMED["C15"] = dict(cat="model_checking", ref="DESIGN.md 6 C15", note=POL_NOTE,
+   text="NetPol.tla defines Derived(cluster): the ipsets, policy chains, pod chains and dispatch rules galaxy's scheme assigns to a cluster state, and the ownership split of the kernel state "
+        "(galaxy-owned names vs foreign chains, rules and sets). The real PolicyManager is driven over a strict in-memory kernel through histories of policy/pod/namespace edits (handled or lost), "
+        "process restarts, transient kernel failures and repeated full synchronisations, starting from kernels preloaded with foreign state and unexplained GLX-* garbage; TLC evaluates on every recorded line "
+        "SyncExact (owned state = Derived after a fault-free synchronisation), Idempotent, ForeignUntouched and NoDanglingBatch (the kernel model refuses and records any submission that references a missing chain or set). "
+        "MC_NetPol checks exhaustively over a small universe that Derived is well formed (references only what it derives).",
+   tech="TLA+ spec of the compilation scheme evaluated by TLC on traces of real-code executions over a strict kernel model + exhaustive TLC check of the scheme on a small universe")
+CLAIMED["C16"] = dict(cat="model_checking", ref="DESIGN.md 6 C16", note=POL_NOTE,
+   text="NetPol.tla states the Kubernetes NetworkPolicy semantics of a new connection (K8sAllows) and the verdict of a filter table (Walk: first match, jumps and returns, ipset membership with nomatch). "
+        "MC_NetPol proves by exhaustive enumeration (every cluster of two pods and one policy built from every peer and port form) that galaxy's scheme without its named departures gives exactly the API verdict, "
+        "and that every difference of the scheme as it is falls into a named class. On the real code, at every synchronisation point of the recorded histories TLC walks the kernel state the code left for all 648 flows "
+        "of the universe and compares with K8sAllows; differences that the design shows too are reported under their class (known findings), any other difference is a violation; between synchronisations "
+        "PodEventKeepsUp checks that handled pod events leave no derived set without a member and the pod's own chain exact.",
+   tech="TLA+ reference semantics + packet-walk semantics evaluated by TLC on kernel states produced by the real code; exhaustive TLC check of design vs API semantics on a small universe")
+
 NA = {
  "C19": "data races are below the granularity of an action-level TLA+ specification; deciding them needs a race detector / lock-set analysis, i.e. another technique (DESIGN.md section 1)",
 }
